@@ -230,6 +230,9 @@ func (t *sseClientTransport) start(ctx context.Context) error {
 	case <-ctx.Done():
 		t.close()
 		return fmt.Errorf("context cancelled while waiting for endpoint: %w", ctx.Err())
+	case <-sseCtx.Done():
+		// Close() ended the stream while the endpoint was awaited.
+		return errors.New("transport closed while waiting for endpoint")
 	case <-time.After(60 * time.Second): // Add a timeout.
 		t.close()
 		return fmt.Errorf("timeout waiting for endpoint")
